@@ -116,6 +116,59 @@ func genC08(r *Run) {
 		}
 		prev = w
 	}
+	// ---- a decode that FAILS keeps nothing of its input either: the name sets inside a decoded message (search list,
+	// FQDN, NTP server name) are handed a buffer that does not decode, the buffer is then overwritten; the message is
+	// what it was before, whatever the buffer holds
+	for i := 0; i < r.N(60, 3000); i++ {
+		w := append([]byte{7, 1, 2, 3}, tlvb(56, tlvb(3, []byte{3, 'n', 't', 'p', 7, 'e', 'x', 'a', 'm', 'p', 'l', 'e', 0}))...)
+		w = append(w, tlvb(24, []byte{1, 'a', 2, 'b', 'c', 0})...)
+		w = append(w, tlvb(39, []byte{1, 4, 'h', 'o', 's', 't', 0})...)
+		m, err := dhcpv6.FromBytes(append([]byte{}, w...))
+		if err != nil {
+			break
+		}
+		var sets []*rfc1035label.Labels
+		walkV6(m, func(o dhcpv6.Option) {
+			switch x := o.(type) {
+			case *dhcpv6.OptFQDN:
+				sets = append(sets, x.DomainName)
+			case *dhcpv6.OptNTPServer:
+				for _, so := range x.Suboptions {
+					if f, ok := so.(*dhcpv6.NTPSuboptionSrvFQDN); ok {
+						sets = append(sets, &f.Labels)
+					}
+				}
+			default:
+				if o.Code() == dhcpv6.OptionDomainSearchList {
+					if l, ok := field(o, "DomainSearchList").(*rfc1035label.Labels); ok {
+						sets = append(sets, l)
+					}
+				}
+			}
+		})
+		before := snapV6(m)
+		for _, l := range sets {
+			if l == nil {
+				continue
+			}
+			bad := append([]byte{3, 'o', 'l', 'd', 0}, byte(9+r.Rng.Intn(40)), 'x') // a valid name, then a label running past the end
+			if l.FromBytes(bad) == nil {
+				continue
+			}
+			evals++
+			if after := snapV6(m); after != before {
+				r.Fail("v6-failed-decode-changes-value", hx(w), "a name set inside the message changed although the FromBytes call on it failed: "+trunc(firstDiff(before, after), 300))
+				break
+			}
+			for name, pat := range overwritePatterns(r, len(bad), bad) {
+				copy(bad, pat)
+				if after := snapV6(m); after != before {
+					r.Fail("v6-input-aliased:"+name, hx(w), "the message follows a buffer that a failed FromBytes call was given: "+trunc(firstDiff(before, after), 300))
+					break
+				}
+			}
+		}
+	}
 	// ---- single options through ParseOption
 	for _, c := range knownV6Codes {
 		for k := 0; k < r.N(15, 400); k++ {
